@@ -2,7 +2,7 @@
 typestate / purity / in-place sites), A10 (closure re-use), A2.tuple/A2.slot."""
 import ast
 
-from ..kfun import calls_in, contains, eval_function, is_call_to, paths, same, strip_seq
+from ..kfun import calls_in, contains, eval_function, is_call_to, paths, registered_closure, returned_closure, same, strip_seq
 from ..model import AnalysisError, norm_text
 from ..regs import class_lookup, class_mro
 from ..ruleir import apply_value, leaves
@@ -128,11 +128,12 @@ def zero_paths(ctx, world):
                 else:
                     ctx.fail("A13.once", "make_vjp:backward", f"{q}:backward", loc, f"vjp(g) is not backward_pass(g, end_node) (found {str(res)[:80]})", "any reverse-mode call")
     # --- make_jvp
-    r, syms, m, node, sc = eval_function(world, CORE, "make_jvp.jvp")
+    clo_j, top_j, osy, m, outer_fn, osc = returned_closure(world, CORE, "make_jvp")
+    node = clo_j.fnode
     loc = loc_of(m, node)
     q = "autograd.core.make_jvp"
-    r = unseq(expand(ev, r, KEEP))
-    g = syms["#0"]
+    g = T("sym", name="g", role="param")
+    r = unseq(expand(ev, ev.apply(clo_j, [g], {}, []), KEEP))
     tr = [t for t in walk(r) if is_call_to(t, "autograd.tracer.trace")]
     if not tr:
         raise AnalysisError("make_jvp no longer calls trace()")
@@ -383,6 +384,11 @@ def backward_pass(ctx, world):
                 if is_call_to(v, "autograd.core.add_outgrads") and len(v.args) == 2 and not v.kw:
                     p0, p1 = v.args
                     prev_ok = p0.op == "call" and p0.fn.op == "attr" and p0.fn.name == "get" and is_inner_var(p0.fn.obj) and len(p0.args) in (1, 2) and e_par(p0.args[0]) and (len(p0.args) == 1 or _is_none(p0.args[1])) and not p0.kw
+                    if not prev_ok and p0.op == "if":
+                        # outgrads[parent] if parent in outgrads else None   (either polarity)
+                        a_, pol_ = atom(p0.cond)
+                        yes, no = (p0.then, p0.other) if pol_ else (p0.other, p0.then)
+                        prev_ok = a_.op == "cmp" and a_.opname == "In" and e_par(a_.l) and is_inner_var(a_.r) and yes.op == "sub" and is_inner_var(yes.obj) and e_par(yes.idx) and _is_none(no)
                     edge_ok = prev_ok and e_ing(p1)
         if edge_ok:
             ctx.ob("A13.once", "backward_pass: each (parent, ingrad) edge -> exactly one outgrads[parent] = add_outgrads(outgrads.get(parent), ingrad)", True, loc)
@@ -514,13 +520,15 @@ def ownership(ctx, world):
     # mut_add(None, x) and sparse_add(vs, None, x) allocate zeros first
     for path, label in (("VSpace.mut_add", "mut_add"), ("sparse_add", "sparse_add")):
         r2, s2, m2, n2, sc2 = eval_function(world, CORE, path)
-        r2 = strip_seq(r2)
+        r2 = unseq(expand(world.ev, r2, KEEP)) if r2 is not None else None
         xp = s2["#1"]
         okz = False
-        for t in walk(r2):
-            if t.op == "if" and t.cond.op == "cmp" and t.cond.l is xp and t.cond.r.op == "const" and t.cond.r.value is None:
-                z = t.other if t.cond.opname in ("IsNot", "NotEq") else t.then
-                okz = z.op == "call" and z.fn.op == "attr" and z.fn.name == "zeros"
+        is_none_atom, decide_none = none_test(lambda t: t is xp)
+        if r2 is not None and _tests(r2, is_none_atom):
+            # with x_prev None, the value handed to the in-place accumulator is a fresh zeros()
+            spec = specialise(r2, decide_none(True))
+            zs = [t for t in walk(spec) if t.op == "call" and t.fn.op == "attr" and t.fn.name == "zeros" and not t.args]
+            okz = bool(zs) and not any(t is xp for t in walk(spec))
         if okz:
             ctx.ob("A9.pure", f"{label}(None, x) accumulates into freshly allocated zeros", True, loc_of(m2, n2))
         else:
@@ -1078,11 +1086,15 @@ def _closure_locals(clo):
 def dispatch(ctx, world):
     ctx.describe("A13.align", "defvjp's three dispatch branches (L==1, L==2, generic) are specialisations of one mapping: result i is vjps_dict[argnums[i]](ans, *args, **kwargs)(g), in argnums order; defvjp_argnum / defjvp / defjvp_argnum pair each argnum with its own rule/tangent via zip(argnums, .); argnums= is honoured by zip(argnums, makers)")
     ev = world.ev
-    r, syms, m, node, sc = eval_function(world, CORE, "defvjp.vjp_argnums")
+    clo_d, pre_d, prekw_d, osy, m, outer_fn, osc, reg_d = registered_closure(world, CORE, "defvjp", ".defvjp_argnums")
+    node = clo_d.fnode
     loc = loc_of(m, node)
     q = "autograd.core.defvjp.vjp_argnums"
-    argnums, ans, args, kw = syms["#0"], syms["#1"], syms["#2"], syms["#3"]
-    vd = sc.parent.lookup("vjps_dict")
+    argnums, ans, args, kw = (T("sym", name=n_, role="param") for n_ in ("argnums", "ans", "args", "kwargs"))
+    r = ev.apply(clo_d, list(pre_d) + [argnums, ans, args, kw], dict(prekw_d), [])
+    vd = next((v_ for v_ in osc.vars.values() if v_ is not None and v_.op == "comp" and v_.get("kind") == "DictComp"), None)
+    if vd is None:
+        raise AnalysisError("defvjp no longer builds a dictionary of translated rules")
     g = T("sym", name="g", role="g")
 
     def rule_call(t, idx_pred):
@@ -1192,13 +1204,20 @@ def dispatch(ctx, world):
         else:
             ctx.fail("A13.align", f"{fname}:dict", f"autograd.core.{fname}:rule-dict", loc_of(m2, fn), f"{fname} does not build {{argnum: {tr}(maker, fun, argnum) for argnum, maker in zip(kwargs.get('argnums', count()), makers)}}", "defvjp(f, rule, argnums=(1,)) or a None rule for argument 1")
     # jvp_argnums: sum_outgrads(jvps_dict[argnum](g, ans, *args, **kwargs) for argnum, g in zip(argnums, gs))
-    for path, kind in (("defjvp.jvp_argnums", "dict"), ("defjvp_argnum.jvp_argnums", "maker"), ("defvjp_argnum.vjp_argnums", "vmaker")):
-        r, syms, m3, node3, sc3 = eval_function(world, CORE, path)
-        r = unseq(expand(ev, r, KEEP)) if r is not None else None
+    for path, kind, outer_name, api in (("defjvp.jvp_argnums", "dict", "defjvp", ".defjvp_argnums"), ("defjvp_argnum.jvp_argnums", "maker", "defjvp_argnum", ".defjvp_argnums"), ("defvjp_argnum.vjp_argnums", "vmaker", "defvjp_argnum", ".defvjp_argnums")):
+        clo3, pre3, prekw3, osy3, m3, outer3, osc3, reg3 = registered_closure(world, CORE, outer_name, api)
+        node3 = clo3.fnode
         loc3 = loc_of(m3, node3)
         ok = False
         if kind in ("dict", "maker"):
-            an, gs, a_, ar, kw_ = syms["#0"], syms["#1"], syms["#2"], syms["#3"], syms["#4"]
+            an, gs, a_, ar, kw_ = (T("sym", name=n_, role="param") for n_ in ("argnums", "gs", "ans", "args", "kwargs"))
+            r = ev.apply(clo3, list(pre3) + [an, gs, a_, ar, kw_], dict(prekw3), [])
+        else:
+            an = T("sym", name="argnums", role="param")
+            star_args = T("sym", name="args", role="param", star=True)
+            r = ev.apply(clo3, list(pre3) + [an, T("star", x=star_args)], dict(prekw3), [])
+        r = unseq(expand(ev, r, KEEP)) if r is not None else None
+        if kind in ("dict", "maker"):
             if is_call_to(r, "autograd.core.sum_outgrads") and len(r.args) == 1 and r.args[0].op == "comp":
                 c = r.args[0]
                 z = c.src
@@ -1207,14 +1226,13 @@ def dispatch(ctx, world):
                 e_an = lambda t: t.op == "sub" and t.obj.op == "iterelem" and t.idx.op == "const" and t.idx.value == 0
                 e_g = lambda t: t.op == "sub" and t.obj.op == "iterelem" and t.idx.op == "const" and t.idx.value == 1
                 if kind == "dict":
-                    jd = sc3.parent.lookup("jvps_dict")
+                    jd = next((v_ for v_ in osc3.vars.values() if v_ is not None and v_.op == "comp" and v_.get("kind") == "DictComp"), None)
                     ok = zok and el.op == "call" and el.fn.op == "sub" and el.fn.obj is jd and e_an(el.fn.idx) and len(el.args) == 3 and e_g(el.args[0]) and el.args[1] is a_ and el.args[2].op == "star" and el.args[2].x is ar and len(el.dstar) == 1 and el.dstar[0] is kw_
                 else:
-                    jm = sc3.parent.lookup("jvpmaker")
+                    jm = osy3["#1"]
                     ok = zok and el.op == "call" and el.fn is jm and len(el.args) == 5 and e_an(el.args[0]) and e_g(el.args[1]) and el.args[2] is a_ and el.args[3] is ar and el.args[4] is kw_
         else:
-            an = syms["#0"]
-            vm = sc3.parent.lookup("vjpmaker")
+            vm = osy3["#1"]
             if r.op == "closure":
                 g2 = T("sym", name="g", role="g")
                 res = strip_seq(ev.apply(r, [g2], {}, []))
@@ -1224,7 +1242,7 @@ def dispatch(ctx, world):
                         src = el.fn.src
                         if src.op == "comp" and src.src is an and src.get("kind") == "ListComp":
                             mk = strip_seq(src.elt)
-                            ok = mk.op == "call" and mk.fn is vm and len(mk.args) == 2 and mk.args[0].op == "iterelem" and mk.args[0].src is an and mk.args[1].op == "star" and mk.args[1].x is syms["*"]
+                            ok = mk.op == "call" and mk.fn is vm and len(mk.args) == 2 and mk.args[0].op == "iterelem" and mk.args[0].src is an and mk.args[1].op == "star" and mk.args[1].x is star_args
         if ok:
             ctx.ob("A13.align", f"{path}: each argnum paired with its own rule / tangent in argnums order", True, loc3)
         else:
@@ -1265,22 +1283,30 @@ def raise_discipline(ctx, world):
     targets = [(CORE, "VJPNode.__init__", "primitive_vjps"), (CORE, "JVPNode.__init__", "primitive_jvps"), (CORE, "defvjp.vjp_argnums", "vjps_dict"), ("autograd.tracer", "new_box", "box_type_mappings"), (CORE, "vspace", "mappings"), (CORE, "defjvp.jvp_argnums", "jvps_dict")]
     n = 0
     for modname, path, table in targets:
-        m, fn = world.repo.find_def(modname, path)
-        loc = loc_of(m, fn)
         q = f"{modname}.{path}"
         if "." in path and path.split(".")[0] in ("defvjp", "defjvp"):
-            # the rule dictionary is a local of the registration function: find it by value (the dict built from
-            # translate_vjp / translate_jvp), not by name
-            try:
-                _r, _sy, _m, _fn, _sc = eval_function(world, modname, path)
-                outer_sc = _sc.parent
-                for nm_, v_ in (outer_sc.vars.items() if outer_sc is not None else []):
-                    if v_ is not None and v_.op == "comp" and v_.get("kind") == "DictComp":
-                        table = nm_
-            except AnalysisError:
-                raise
-            except Exception:
-                pass
+            # the dispatcher is whatever function the registration hands to def*_argnums, and the rule dictionary is
+            # the local it captured: both found by value (not by name / nesting)
+            outer_name = path.split(".")[0]
+            clo_, pre_, prekw_, osy_, m, outer_fn_, osc_, reg_ = registered_closure(world, modname, outer_name, ".defvjp_argnums" if outer_name == "defvjp" else ".defjvp_argnums")
+            fn = clo_.fnode
+            dvar = next((nm_ for nm_, v_ in osc_.vars.items() if v_ is not None and v_.op == "comp" and v_.get("kind") == "DictComp"), None)
+            if dvar is not None:
+                table = dvar
+                # inside a module-level factory the captured dict has the factory's parameter name
+                if isinstance(fn, ast.FunctionDef) and getattr(fn, "_parent", None) is not outer_fn_:
+                    call_ = reg_.args[-1]
+                    if call_.op == "call":
+                        fac, fpre, fkw = world.ev.as_closure(call_.fn)
+                        if fac is not None:
+                            fparams = [a_.arg for a_ in fac.fnode.args.args]
+                            for i_, a_ in enumerate(call_.args):
+                                if a_ is osc_.vars[dvar] and i_ < len(fparams):
+                                    table = fparams[i_]
+            m = world.repo.mods[clo_.mod.name] if hasattr(clo_.mod, "name") else m
+        else:
+            m, fn = world.repo.find_def(modname, path)
+        loc = loc_of(m, fn)
         # 1. lookups by indexing
         lookups = []
         defaulting = []
